@@ -78,7 +78,10 @@ let model_visit fl g (v : visit) known onst =
       let cut = if v.stop = -2 then ev_upto flagged evs else take (v.stop + 1) evs in
       (* interrupted iff the breaking event exists *)
       let interrupted = if v.stop = -2 then List.exists flagged evs else List.length evs > v.stop in
-      (cut, false, interrupted, c.c_known, c.c_onst)
+      (* a break on the first event (the Init of the first root not yet known) leaves the
+         marks as they were: the callback runs before the root is marked *)
+      if v.stop = 0 && interrupted then (cut, false, interrupted, known, onst)
+      else (cut, false, interrupted, c.c_known, c.c_onst)
 
 let flavour_name = function NoPred -> "nopred" | Pred -> "pred" | Path -> "path"
 
